@@ -207,8 +207,9 @@ Definition judge_helper (r : redeemers) (cm : costmdls) (d : option plutus_list)
   | Ok wf =>
       let expected := H (ledger_preimage (field_slice 5 wf) (field_slice 4 wf) (spec_views (cm_keys cm) cm)) in
       if bytes_eqb reported expected then Holds
-      else if known_dup_definite d then Fails 1
-      else if known_empty_datums d then Fails 2
+      (* the two repaired defects are recognised by their exact symptom: the hash of the defective preimage *)
+      else if known_dup_definite d && bytes_eqb reported (H (script_data_preimage_gen true false r cm d)) then Fails 1
+      else if known_empty_datums d && bytes_eqb reported (H (script_data_preimage_gen false true r cm d)) then Fails 2
       else Fails 0
   | _ => Fails 0
   end.
